@@ -43,7 +43,11 @@ Ctors == {[kind |-> "ctor", cy |-> IntC(2020), cm |-> cm, cd |-> cd] : cm \in Od
 EdgeDates == {D(2020, 2, 28), D(2020, 2, 29), D(2020, 3, 1), D(2020, 12, 31), D(2021, 1, 1), D(2021, 1, 31), D(2021, 2, 1), D(2021, 2, 28), D(2021, 3, 1),
               D(1999, 12, 31), D(2000, 1, 1), D(1, 1, 1), D(0 - 1, 12, 31), D(0 - 1, 1, 1), D(0 - 2, 6, 15), D(9999, 12, 31), D(10000, 1, 1),
               D(262143, 12, 31), D(262144, 1, 1), D(262144, 1, 2), D(0 - 262144, 1, 1), D(0 - 262145, 12, 31), D(0 - 262145, 12, 30),
-              D(999999999, 12, 30), D(999999999, 12, 31), D(0 - 999999999, 1, 1), D(0 - 999999999, 1, 2), D(2021, 10, 9), D(2021, 9, 10)}
+              D(999999999, 12, 30), D(999999999, 12, 31), D(0 - 999999999, 1, 1), D(0 - 999999999, 1, 2), D(2021, 10, 9), D(2021, 9, 10),
+              \* years around the powers of two at which a packed or shifted representation of a date would wrap
+              D(32767, 12, 31), D(32768, 1, 1), D(65536, 1, 1), D(2097151, 12, 31), D(2097152, 1, 1), D(4194303, 12, 31), D(4194304, 1, 1), D(8388608, 1, 1),
+              D(0 - 32768, 12, 31), D(0 - 32769, 1, 1), D(0 - 2097152, 6, 15), D(0 - 4194304, 12, 31), D(0 - 4194305, 1, 1), D(0 - 8388609, 1, 1),
+              D(16777216, 1, 1), D(100000000, 6, 15), D(0 - 100000000, 6, 15), D(536870912, 1, 1), D(0 - 536870912, 1, 1)}
 DPairs == {[kind |-> "dpair", a |-> a, b |-> b] : a \in EdgeDates, b \in EdgeDates}
 
 \* ---- date-and-time pairs: readings around the switch-over days of the zones, against UTC / offset readings
@@ -68,7 +72,9 @@ SameZonePairs == UNION {{[kind |-> "dtpair",
                         : y \in ZoneYears}
 OffsetReadings == {DT(d, t) : d \in {D(2021, 1, 1), D(2020, 12, 31), D(2020, 2, 29), D(2020, 3, 1), D(1, 1, 1), D(0 - 1, 12, 31), D(2300, 6, 1), D(1700, 3, 1)},
                      t \in {Utc(0, 0, 0, 0), Utc(23, 59, 59, 999999999), Off(0, 0, 0, 0, 50400), Off(23, 59, 59, 999999999, 0 - 53999), Off(10, 0, 0, 1, 3600),
-                            Off(9, 0, 0, 0, 0), Off(11, 30, 0, 0, 5400), Off(12, 0, 0, 0, 0 - 1), Loc(10, 0, 0, 0), Zn(10, 0, 0, 0, "Asia/Kolkata"), Zn(10, 0, 0, 0, "Etc/GMT+5")}}
+                            Off(9, 0, 0, 0, 0), Off(11, 30, 0, 0, 5400), Off(12, 0, 0, 0, 0 - 1), Loc(10, 0, 0, 0),
+                            \* readings that differ in the fraction of a second only (one zone), and the same instants read in another zone
+                            Utc(10, 0, 0, 500000000), Utc(10, 0, 0, 700000000), Off(11, 0, 0, 500000000, 3600), Off(11, 0, 0, 700000000, 3600), Zn(10, 0, 0, 0, "Asia/Kolkata"), Zn(10, 0, 0, 0, "Etc/GMT+5")}}
 OffsetPairs == {[kind |-> "dtpair", a |-> a, b |-> b] : a \in OffsetReadings, b \in OffsetReadings}
 FarPairs == {[kind |-> "dtpair", a |-> DT(a, Utc(0, 0, 0, 0)), b |-> DT(b, Off(0, 0, 0, 0, 3600))] : a \in EdgeDates, b \in {D(2021, 1, 1), D(262143, 12, 31), D(0 - 262144, 1, 1), D(999999999, 12, 31)}}
 
